@@ -198,6 +198,10 @@ class Sources(SubCheck):
 
 HEAD = '<svg xmlns="http://www.w3.org/2000/svg" xmlns:xlink="http://www.w3.org/1999/xlink" %s>'
 EXTRAS = [
+    # a style sheet that comes after an element of the same tag / class / id signature as the one it is to match (the first
+    # one is empty, so it does not matter whether a sheet reaches back)
+    ("style-after-same-signature", HEAD % "" + '<g></g><style>g { stroke: #123456; stroke-width: 3 }</style><g><rect id="L" width="3" height="4"/></g></svg>'),
+    ("style-after-same-class", HEAD % "" + '<style>.k { fill: #111111 }</style><g class="k"></g><style>.k { stroke: #abcdef }</style><g class="k"><rect id="L" width="3" height="4"/><circle id="C" r="2"/></g></svg>'),
     ("comment", HEAD % "" + '<style>/* c1 */ rect { fill: #111111 } /* c2 */ .cl { stroke: #222222 /* inner */ }</style><rect id="L" class="cl" width="3" height="4"/></svg>'),
     ("terminated", HEAD % "" + '<style>rect { fill: #111111; } .cl { stroke: #222222; stroke-width: 3; }</style><rect id="L" class="cl" width="3" height="4"/></svg>'),
     ("two-decls", HEAD % "" + '<style>rect { fill: #111111; stroke: #333333 }</style><rect id="L" width="3" height="4"/><circle id="C" r="2"/></svg>'),
